@@ -292,7 +292,7 @@ E2E_RULE = (' PLUS one end-to-end run of the real psa-dhcpd and psa-dhcpc binari
             'configuration) over a veth pair in a private network namespace: acquisition with a foreign host answering ARP for one pool address, a link flap '
             '(re-validation by rebinding), 120 malformed frames; every frame is captured with its link-layer header, the interface configuration, routes and '
             'the programs\' open sockets are read from the kernel (skipped, and said so in the evidence, where network namespaces are unavailable).')
-for _pid, _cases in (('C02', []), ('C06', ['e2e-server']), ('C07', []), ('C08', []), ('C10', []), ('C15', []), ('C16', ['e2e-client']), ('C19', [])):
+for _pid, _cases in (('C02', []), ('C06', ['e2e-server']), ('C07', []), ('C08', []), ('C10', []), ('C15', []), ('C16', ['e2e-client']), ('C17', ['e2e-resolv']), ('C19', [])):
     _p = PROPS[_pid]
     _p['tests'] = list(_p['tests']) + ['TestE2E']
     if _pid == 'C06':
@@ -307,7 +307,7 @@ for _pid, _cases in (('C02', []), ('C06', ['e2e-server']), ('C07', []), ('C08', 
     if _p.get('case_files') is not None:
         _p['case_files'] = list(_p['case_files']) + _cases
     else:
-        _p['case_exclude'] = [n for n in ('e2e-server', 'e2e-client') if n not in _cases]
+        _p['case_exclude'] = [n for n in ('e2e-server', 'e2e-client', 'e2e-resolv') if n not in _cases]
     _p['trusted'] = list(_p['trusted']) + ['end-to-end run: one network namespace for both ends of the veth pair (arp_ignore=1 so that the kernel does not answer for the other end); the observer\'s own AF_PACKET capture and /proc readings']
 
 # C18 on the real program: psa-dhcpd started on the text form of generated configurations in a private network namespace
